@@ -17,7 +17,7 @@ def run_one(m):
     try:
         f = os.path.join(d, "mut.go"); open(f, "w").write(new)
         ov = os.path.join(d, "ov.json"); json.dump({src: f}, open(ov, "w"))
-        cmd = [os.path.join(ROOT, "bin/govc"), "check", "-prop", m["prop"], "-contracts", "/repo,/verif/contracts", "-overlay", ov,
+        cmd = [os.path.join(ROOT, "bin/govc"), "check", "-prop", m["prop"], "-contracts", os.environ.get("GOVC_CONTRACTS", "/verif/contracts"), "-overlay", ov,
                "-workdir", os.path.join(d, "w"), "-replays", os.path.join(d, "r"), "-known", "/nonexistent"]
         if m.get("func"): cmd += ["-func", m["func"]]
         p = subprocess.run(cmd, capture_output=True, text=True)
@@ -32,7 +32,10 @@ def run_one(m):
         shutil.rmtree(d, ignore_errors=True)
 
 def main():
-    ms = json.load(open(os.path.join(ROOT, "selftest/mutants.json")))
+    ms = []
+    import glob
+    for f in sorted(glob.glob(os.path.join(ROOT, "selftest/mutants.d/*.json"))):
+        ms += json.load(open(f))
     sel = sys.argv[1:]
     if sel:
         ms = [m for m in ms if m["prop"] in sel or m["id"] in sel]
